@@ -312,7 +312,7 @@ func newAggrQuantileFunc(args []Expression) (AggrFunction, error) {
 		return nil, NewSyntaxError(args[1].GetPos(), "quantile function second parameter require number type")
 	}
 
-	pvar, err := args[1].Execute(NewKVP(nil, nil), nil)
+	pvar, err := args[1].Execute(NewKVP(nil, nil), NewExecuteCtx())
 	if err != nil {
 		return nil, err
 	}
@@ -416,7 +416,7 @@ func newAggrGroupConcatFunc(args []Expression) (AggrFunction, error) {
 	if args[1].ReturnType() != TSTR {
 		return nil, NewSyntaxError(args[1].GetPos(), "group concat second parameter require string type")
 	}
-	svar, err := args[1].Execute(NewKVP(nil, nil), nil)
+	svar, err := args[1].Execute(NewKVP(nil, nil), NewExecuteCtx())
 	if err != nil {
 		return nil, err
 	}
